@@ -3,7 +3,7 @@ import itertools
 import os
 import random
 
-from vmon import ambient, attach, gen, refmodel, runner
+from vmon import ambient, attach, gen, refmodel, runner, vutil
 
 RULE = ("EXHAUSTIVE over: 8 bin types x threshold lists of length 1-3 in increasing/equal/decreasing order x every "
         "order relation a value can have to the thresholds (below, equal, between, equal, above) plus NaN and +-inf, "
@@ -270,6 +270,21 @@ def run_cli_part(desc, ctx):
             if got != exp:
                 ctx.violation("cli-contingency|%s" % b, "-m %s -r %s -b %s: csv %s, documented %s" % (name, ts, b, got, exp),
                               {"bin": b, "ts": ts, "name": name})
+        # -m within: the share of ABSOLUTE ERRORS inside each event (an error of exactly 0 sits on a threshold when 0 is one)
+        tsw = ts if ts[0] == 0.0 else [0.0, ts[1], ts[2]]       # 0 is always the lowest threshold here
+        o = runner.run_cli([path, "-m", "within", "-r", ",".join(gen.fnum(t) for t in tsw), "-b", b, "-x", "threshold", "-type", "csv"])
+        if o.status == "ok":
+            h, rows = runner.parse_csv(o.stdout)
+            errs = [abs(o_ - f_) for o_, f_ in pairs]
+            wantw = [100.0 * sum(1 for e in errs if expected(b, tsw, i, e)) / len(errs) for i in range(ne)]
+            ctx.count("cli_rows_checked", len(rows))
+            ctx.count("within_metric_rows", len(rows))
+            ctx.case("%s|inc3|equal|cli-within" % b, 0.0 in errs and True, {"argv": ["ev.txt", "-m", "within", "-r", tsw, "-b", b]})
+            if len(rows) != ne or not all(vutil.close_text_number(r[-1], w, 6) for r, w in zip(rows, wantw)):
+                ctx.violation("cli-within-metric|%s" % b, "-m within -r %s -b %s: csv %s, documented %s (absolute errors %s)"
+                              % (tsw, b, [r[-1] for r in rows], wantw, sorted(errs)[:12]), {"bin": b, "ts": tsw, "name": "within"})
+        elif o.status == "crash":
+            ctx.violation("cli-failed|within", str(o.brief()), {"bin": b})
         # -m freq: fraction of obs / fcst inside each event (read back from the figure)
         for metric, extra in (("freq", []),):
             o = runner.run_cli([path, "-m", metric, "-r", ",".join(gen.fnum(t) for t in ts), "-b", b] + extra, keep_fig=True)
